@@ -65,6 +65,14 @@ func checkC17(c *Ctx) {
 		c.freshResult("FRESH-RESULT", fis, "all proposed neighbours are pairwise distinct")
 	}
 	c.Floor("FRESH-RESULT", 5)
+	c.Decides("TRUNC: every output file of the commands (the -o file of nni through openWriteFile included) is opened by os.Create or with O_TRUNC/O_APPEND/O_EXCL: no stale tail of an earlier, longer output stays behind the neighbours written now")
+	{
+		var fs []*FuncInfo
+		fs = append(fs, c.AllFuncs("cmd")...)
+		fs = append(fs, c.PkgLevelClosures("cmd")...)
+		c.truncOutputs("TRUNC", fs, "proposes exactly two rearrangements per inner branch (as written to the output)")
+	}
+	c.Floor("TRUNC", 5)
 	c.Decides("BUF-FLUSH (shared with C16): every bufio.Writer of the repository (the nni command writes through none today) is flushed before its file is closed - no deferred Flush that runs after an ordinary or a later-deferred close")
 	c.bufFlush("BUF-FLUSH", c.All, "the NNI generator proposes exactly two rearrangements per inner branch")
 	c.Floor("BUF-FLUSH", 3)
